@@ -58,7 +58,7 @@ var gfModules = map[string]gfModule{
 	"go1.24":      {"example.com/m", "1.24"},
 	"go1.18":      {"example.com/m", "1.18"},
 	"go1.24.2":    {"example.com/m", "1.24.2"}, // a three-part go directive
-	"go1.21local": {"m", "1.21"}, // a module path without a dot: its packages look like std to an import grouper that ignores ModulePath
+	"go1.21local": {"m", "1.21"},               // a module path without a dot: its packages look like std to an import grouper that ignores ModulePath
 }
 
 // gfPkgName: in the go1.18 module the package clause differs from the directory name
@@ -403,7 +403,7 @@ func genfileBatch(self, modName string, idx []int, parsed []gfCase, obsOf, concO
 	files := map[string]string{
 		"go.mod":               "module " + mod.Path + "\n\ngo " + mod.Go + "\n",
 		"dep/json/json.go":     "package json\n\ntype T struct{}\n",
-		"dep/v2/util/util.go": "package util\n\ntype T int\n",
+		"dep/v2/util/util.go":  "package util\n\ntype T int\n",
 		"dep/client/client.go": "package xclient\n\ntype T struct{}\n", // package clause differs from the directory name
 	}
 	scripts := map[int][][]pipe.ScriptPart{}
